@@ -1,4 +1,4 @@
-import CardVerif.Spec.GinRules
+import CardModel.Spec.GinRules
 import CardVerif.Proofs.GinProtocol
 /-!
 # C10 — the gin turn protocol: only the move the turn allows is accepted
